@@ -67,7 +67,14 @@ func (p *Program) globalValue(ex *Exec, name string, pos token.Pos) Val {
 	case "encoding/binary.BigEndian":
 		return Term{"bigEndian", p.sorts.declareOpaque("Opaque_bigEndian")}
 	}
-	// package-level variables of other packages: opaque constants by name
+	// error variables of other packages: distinct non-nil errors
+	if strings.HasPrefix(name, "github.com/cosmos/cosmos-sdk/types/errors.Err") {
+		h := 0
+		for _, c := range name {
+			h = (h*31 + int(c)) % 1000003
+		}
+		return Term{fmt.Sprintf("(SomeErr %d)", 1000000+h), "Err"}
+	}
 	ex.unsup(pos, "read of package-level variable %s", name)
 	return &unknownVal{"global " + name}
 }
@@ -525,7 +532,9 @@ func resultNames(c *Contract, fn *ssa.Function, rts []types.Type) []string {
 		for i := 0; i < res.Len(); i++ {
 			n := res.At(i).Name()
 			if n == "" || n == "_" {
-				if res.Len() == 1 {
+				if res.Len() == 1 && res.At(i).Type().String() == "error" {
+					n = "err"
+				} else if res.Len() == 1 {
 					n = "result"
 				} else if i == res.Len()-1 && res.At(i).Type().String() == "error" {
 					n = "err"
@@ -621,12 +630,16 @@ func (bs *blockState) applySpec(c *Contract, display string, args []Val, rts []t
 		t = ex.define("r_"+lastSeg(display), t)
 		results = append(results, t)
 		post.Vars[rnames[0]] = t
+		post.Vars["result"] = t
 	} else {
 		for i, rt := range rts {
 			v := bs.freshOf(rt, "r_"+lastSeg(display), pos)
 			results = append(results, v)
 			if t, ok := v.(Term); ok && i < len(rnames) {
 				post.Vars[rnames[i]] = t
+				if len(rts) == 1 {
+					post.Vars["result"] = t
+				}
 			}
 		}
 	}
